@@ -72,7 +72,7 @@ class Capture:
         self.surfs = None     # [(key, type, pfloats, pstrs, tr, origin strs)]
         self.skipped = None
         self.union_ids = None
-        self.cells = None     # [(id, mat, matint, density, dnorm, dneg, live)]
+        self.cells = None     # [(id, mat, matint, density, dnorm, dneg, live, imp)]
         self.bcs = None       # [(surface key, '*' or '+')]
         self.mats = None      # [(key, fractions, atom)]
         self.rescaled = None  # [(key, density, items)]
@@ -115,7 +115,7 @@ def _snap_cells(mcnp_dict):
         live = not (cell.importance <= 0. or cell.universe != 0
                     or cell.fillid is not None)
         out.append((int(key), str(cell.materialID), matint, cell.density,
-                    dnorm, dneg, live))
+                    dnorm, dneg, live, float(cell.importance)))
     return out
 
 
@@ -164,7 +164,7 @@ def material_tables(deck_text, cells):
                          extract_isotopes_fractions(val.isotopes)]
             mats.append((int(key), fractions, bool(val.atom_fracs)))
             seen = set()
-            for _cid, _mat, matint, density, _dn, dneg, live in cells:
+            for _cid, _mat, matint, density, _dn, dneg, live, _imp in cells:
                 if not live or matint != key or density is None \
                         or density in seen or dneg or not val.atom_fracs:
                     continue
@@ -236,7 +236,7 @@ def coq_surface(surf):
 
 
 def coq_cell(cell):
-    _cid, mat, matint, density, dnorm, dneg, live = cell
+    _cid, mat, matint, density, dnorm, dneg, live, _imp = cell
     return (f'(mkCell {cstr(mat)} {copt(matint, cz)} {copt(density, cstr)} '
             f'{cstr(dnorm)} {cbool(dneg)} {cbool(live)})')
 
